@@ -12,8 +12,9 @@ def main(tier):
     maxlen = 2 if quick else 3
     c.set_deadline(int(os.environ.get('C12_DEADLINE', '600' if quick else '2400')))
     libdir = os.path.join(c.scratch, 'lib')
-    env = {'C12_MAXLEN': str(maxlen), 'C12_LIBDIR': libdir, 'VERIF_TIER': tier}
-    env_asan = {'C12_MAXLEN': '1', 'C12_LIBDIR': libdir, 'VERIF_TIER': tier}
+    twinlen = 1 if quick else 2
+    env = {'C12_MAXLEN': str(maxlen), 'C12_TWINLEN': str(twinlen), 'C12_LIBDIR': libdir, 'VERIF_TIER': tier}
+    env_asan = {'C12_MAXLEN': '1', 'C12_TWINLEN': '1', 'C12_LIBDIR': libdir, 'VERIF_TIER': tier}
     c.build('plain', ['c12'])
     c.build('asan', ['c12'])
     # the API-built argument models are bound to what a fresh strict parse returns (every service probe)
@@ -24,6 +25,10 @@ def main(tier):
     fam = c.run_family('plain', 'c12', 'hist', env=env, chunk=22 if quick else 64, per_case_timeout=60)
     # small sub-family under ASan+UBSan (fork is 20x dearer there): histories of length <= 1
     c.run_family('asan', 'c12', 'hist_asan', env=env_asan, chunk=2, per_case_timeout=120)
+    # conflicting-twin dimension: every service on a document and on its twin (same names, other meanings), every order, on one
+    # instance, with and without the caller destroying all models/results between the calls; the same under ASan+UBSan
+    twin = c.run_family('plain', 'c12', 'twin', env=env, chunk=3 if quick else 16, per_case_timeout=60)
+    c.run_family('asan', 'c12', 'twin_asan', env=env_asan, lo=33, chunk=3, per_case_timeout=120)  # second half = the destroying mode (33 = 1 + 32 histories)
 
     harness = [v for v in c.raw if v['sig'].startswith('HARNESS:')]
     c.raw = [v for v in c.raw if not v['sig'].startswith('HARNESS:')]
@@ -34,7 +39,7 @@ def main(tier):
         c.notes.append('harness errors: %s' % sorted(set(v['sig'] for v in harness)))
 
     nops = 27
-    pairs = fam['evaluated'] * nops
+    pairs = fam['evaluated'] * nops + twin['evaluated'] * 32
     states = int(c.counters.get('states', 0))
     transitions = int(c.counters.get('transitions', 0))
     rc = c.finish(
@@ -51,8 +56,9 @@ def main(tier):
             'service probes take the model returned by the latest parse of the same document in this history, else an API-built twin; the selftest family proves every twin indistinguishable from a fresh strict parse for every service probe',
             'a service probe whose ARGUMENT differs from the fresh one (it came out of an earlier, already judged, call of the history) is judged in the counterfactual world only',
             'Importer::resolveImports and Annotator::assignAllIds mutate their model by contract: no frame condition is judged for them; the annotator probe works on a private model with a fresh Annotator',
+            'twin family: alphabet of 32 operations = 16 service/parser calls on a document and on its conflicting twin (every name kept, every meaning changed: units definitions, variable units and initial values, moved ids, import references and imported file content, numbers in the math); histories of length <= %d over it, each in two modes (caller keeps / destroys all models and results after each history op), each followed by all 32 operations; the Importer library is documented instance state and is not part of the resolve observation' % twinlen,
             'generate probes (C, Python, C with power operator) all work on ONE AnalyserModel per world, obtained from an own Analyser and held; its dump includes every equation AST with the parent-link consistency of every node',
-            'the asan sub-family covers histories of length <= 1 only',
+            'the asan sub-families cover histories of length <= 1 only (twin family: the destroying mode only)',
         ],
         extra_cov={'states': states, 'transitions': transitions, 'traces_validated_against_impl': transitions + fam['evaluated'],
                    'history_probe_pairs': pairs, 'max_history_length': maxlen, 'alphabet_size': nops,
